@@ -366,3 +366,112 @@ Proof.
     [unfold nlen in H; lia|unfold nlen in H; lia|].
   split; [unfold nlen; lia|exact H2].
 Qed.
+
+(* ------------------------------------------------------------------------- *)
+(** * 5. The generic shape of a transfer on one sign *)
+
+Lemma run_one_attempt a op items s s1 s2 s3 s4 n r :
+  vstep s (RequestOperation a op) = Some (s1, Some (AckOperation a op)) ->
+  run_one (send_items items 0) s1 = (s2, Done n) ->
+  vstep s2 (DataChunksSent n) = Some (s3, None) ->
+  vstep s3 (QueryState a) = Some (s4, r) ->
+  run_one (attempt a op items) s = (s4, Done r).
+Proof.
+  intros H1 H2 H3 H4. unfold attempt.
+  rewrite (run_one_bind_done _ _ _ _ _ (run_one_expect_ack a op s s1 H1)).
+  rewrite (run_one_bind_done _ _ _ _ _ H2).
+  rewrite (run_one_bind_done _ _ _ _ _ (run_one_expect_none _ s2 s3 H3)).
+  apply run_one_send. exact H4.
+Qed.
+
+Lemma run_one_verify_report a st s :
+  run_one (verify (Some (ReportState a st)) (Some (ReportState a st))) s = (s, Done tt).
+Proof. unfold verify. rewrite omsg_eqb_refl_report. reflexivity. Qed.
+
+(* A first attempt that ends in the success state ends the transfer. *)
+Lemma run_one_transfer a op items su fa s s' :
+  run_one (attempt a op items) s = (s', Done (Some (ReportState a su))) ->
+  state_eqb su fa = false ->
+  run_one (transfer a op items su fa) s = (s', Done tt).
+Proof.
+  intros H Hne. unfold transfer.
+  change (transfer_loop 2 a op items su fa) with
+    (bind (attempt a op items) (fun r =>
+       if omsg_eqb r (Some (ReportState a fa))
+       then transfer_loop 1 a op items su fa
+       else verify (Some (ReportState a su)) r)).
+  rewrite (run_one_bind_done _ _ _ _ _ H).
+  cbn [omsg_eqb option_eqb msg_eqb]. rewrite Hne, andb_false_r.
+  apply run_one_verify_report.
+Qed.
+
+(* ------------------------------------------------------------------------- *)
+(** * 6. ensure_unconfigured and configure on one sign *)
+
+Ltac exec :=
+  repeat (progress (cbn [run_one bind send expect verify vstep v_query set_state vreset vinit
+                         v_addr v_style v_state v_pages v_pending v_chunks v_w v_h v_type
+                         fst snd omsg_eqb option_eqb msg_eqb operation_eqb state_eqb
+                         request_code state_code andb];
+                    rewrite ?N.eqb_refl)).
+
+Lemma one_ensure_unconfigured a s :
+  VInv0 s -> v_addr s = a ->
+  run_one (ensure_unconfigured a) s = (vinit a (v_style s), Done tt).
+Proof.
+  intros Hinv Ha. destruct s as [a0 fs st pages pend ch w h ty].
+  cbn [v_addr v_style] in *. subst a0. unfold ensure_unconfigured.
+  destruct st; exec; try reflexivity.
+  (* Unconfigured: nothing is sent after the Hello, the sign is already pristine *)
+  rewrite (VInv0_unconf_eq _ Hinv eq_refl) at 1. reflexivity.
+Qed.
+
+(* The sign after a successful configuration as [t]. *)
+Definition configured (a : N) (fs : flip_style) (t : sign_type) : vsign :=
+  {| v_addr := a; v_style := fs; v_state := ConfigReceived; v_pages := []; v_pending := [];
+     v_chunks := 0; v_w := fst (dimensions t); v_h := snd (dimensions t); v_type := Some t |}.
+
+Lemma chunks16_config t : chunks16 (st_to_bytes t) = [st_to_bytes t].
+Proof. destruct t; reflexivity. Qed.
+
+Lemma one_configure_fresh a fs t :
+  run_one (transfer a ReceiveConfig [st_to_bytes t] ConfigReceived ConfigFailed) (vinit a fs)
+  = (configured a fs t, Done tt).
+Proof.
+  apply run_one_transfer; [|reflexivity].
+  destruct (vsign_derives t) as [Hcs Hrt].
+  eapply (run_one_attempt a ReceiveConfig _ (vinit a fs)
+            (set_state (vinit a fs) ConfigInProgress)
+            {| v_addr := a; v_style := fs; v_state := ConfigInProgress; v_pages := [];
+               v_pending := []; v_chunks := 1; v_w := fst (dimensions t);
+               v_h := snd (dimensions t); v_type := Some t |}
+            (configured a fs t) (configured a fs t) 1).
+  - unfold vstep. cbn [vinit v_addr v_state]. rewrite N.eqb_refl. reflexivity.
+  - cbn [send_items]. rewrite chunks16_config. cbn [send_chunks].
+    change ((0 * 16) mod 65536) with 0. change (0 + 1 <? 65536) with true. cbv iota.
+    cbn [bind].
+    rewrite (run_one_bind_done _ _ _
+               {| v_addr := a; v_style := fs; v_state := ConfigInProgress; v_pages := [];
+                  v_pending := []; v_chunks := 1; v_w := fst (dimensions t);
+                  v_h := snd (dimensions t); v_type := Some t |} tt).
+    + reflexivity.
+    + apply run_one_expect_none.
+      unfold vstep, v_send_data. cbn [set_state vinit v_state v_addr v_style v_pages v_pending
+                                       v_chunks v_w v_h v_type].
+      rewrite st_nlen16, Hcs. change ((0 =? 0) && (16 =? 16)) with true. cbv iota.
+      destruct (dimensions t) as [w h]. cbn [fst snd] in *. rewrite Hrt. reflexivity.
+  - unfold vstep, v_data_chunks_sent.
+    cbn [set_state vinit v_state v_addr v_style v_pages v_pending v_chunks v_w v_h v_type
+         flush_pixels].
+    change (1 =? 1) with true. cbv iota. reflexivity.
+  - unfold vstep, configured. cbn [v_addr]. rewrite N.eqb_refl. reflexivity.
+Qed.
+
+Lemma one_configure a t s :
+  VInv0 s -> v_addr s = a ->
+  run_one (configure a t) s = (configured a (v_style s) t, Done tt).
+Proof.
+  intros Hinv Ha. unfold configure.
+  rewrite (run_one_bind_done _ _ _ _ _ (one_ensure_unconfigured a s Hinv Ha)).
+  apply one_configure_fresh.
+Qed.
